@@ -2,7 +2,6 @@ package formatter
 
 import (
 	"bytes"
-	"strings"
 
 	"github.com/ysugimoto/falco/v2/ast"
 )
@@ -344,7 +343,15 @@ func (f *Formatter) formatSwitchStatement(stmt *ast.SwitchStatement) string {
 
 	buf.Reset()
 	buf.WriteString("switch ")
-	buf.WriteString(strings.TrimSpace(stmt.Control.String()))
+	// Print the control expression through the expression formatter: ast's String() prints
+	// the leading comment of a function call control twice
+	if v := f.formatComment(stmt.Control.Leading, " ", 0); v != "" {
+		buf.WriteString(v)
+	}
+	buf.WriteString("(" + f.formatExpression(stmt.Control.Expression).String() + ")")
+	if v := f.formatComment(stmt.Control.Trailing, "", 0); v != "" {
+		buf.WriteString(" " + v)
+	}
 	buf.WriteString(" {\n")
 	for _, c := range stmt.Cases {
 		// If indent_case_labels is false, subtract 1 nest level
